@@ -191,14 +191,20 @@ impl FatVolume {
                 let block = block_cache
                     .read_mut(fat32_info.info_location)
                     .map_err(Error::DeviceError)?;
+                let mut record = [0u8; 8];
+                record.copy_from_slice(&block[488..496]);
                 if let Some(count) = self.free_clusters_count {
-                    block[488..492].copy_from_slice(&count.to_le_bytes());
+                    record[0..4].copy_from_slice(&count.to_le_bytes());
                 }
                 if let Some(next_free_cluster) = self.next_free_cluster {
-                    block[492..496].copy_from_slice(&next_free_cluster.0.to_le_bytes());
+                    record[4..8].copy_from_slice(&next_free_cluster.0.to_le_bytes());
                 }
-                trace!("Writing info sector");
-                block_cache.write_back()?;
+                if block[488..496] != record {
+                    // (only touch the card when the record has actually changed)
+                    block[488..496].copy_from_slice(&record);
+                    trace!("Writing info sector");
+                    block_cache.write_back()?;
+                }
             }
         }
         Ok(())
